@@ -1175,6 +1175,22 @@ func (s *State) permuteKeys(w *Worker, keys []Value) []Value {
 	if n <= 1 || s.opts.MapOrder == 0 {
 		return keys
 	}
+	if s.opts.MapOrder == 3 {
+		// one global choice per path: every map iterates in insertion order, or every map in reverse
+		if s.mapRev == 0 {
+			k := s.choose(w, 2)
+			s.choices = append(s.choices, ChoiceRec{"maporder-all", k})
+			s.mapRev = 1 + k
+		}
+		if s.mapRev == 2 {
+			out := make([]Value, n)
+			for i := range keys {
+				out[n-1-i] = keys[i]
+			}
+			return out
+		}
+		return keys
+	}
 	if n <= 3 && s.opts.MapOrder >= 2 {
 		f := 1
 		for i := 2; i <= n; i++ {
